@@ -188,6 +188,21 @@ func (p *staticProfile) op() {
 		})
 		p.lastEdit[pool] = s.Now()
 		p.note("template of %s edited (drift)", pool)
+		if ch.Pick("st.driftthendelete", 2) == 1 {
+			// while the drifted nodes are being replaced one NodeClaim of the pool is lost as well: static provisioning
+			// and the static-drift method then both want to create NodeClaims under the same node limit
+			d := time.Duration(10+ch.Pick("st.deleteafter", 50)) * time.Second
+			s.AddTimer(actorUser, d, "delete during drift", false, func() {
+				for _, o := range st.List(gvkNodeClaim) {
+					if o.GetLabels()[v1.NodePoolLabelKey] == pool && o.GetDeletionTimestamp() == nil {
+						_ = st.Delete(o, DeleteOpts{}, nil)
+						p.lastEdit[pool] = s.Now()
+						p.note("user deletes NodeClaim %s (during drift replacement)", o.GetName())
+						break
+					}
+				}
+			})
+		}
 	case 6: // crash
 		if s.FaultsOn && !s.Cfg.NoFaults && s.Knobs.FaultKinds["crash"] {
 			p.note("crash")
@@ -233,7 +248,10 @@ func (p *staticProfile) observe() {
 		}
 		if step, lowered := p.limitLower[name]; lowered && step > 0 {
 			// the user lowered the limit or the replica count during the run: NodeClaims created under the old limit may
-			// exceed the new one until deprovisioning catches up (skipped, DESIGN 6/C03)
+			// exceed the new one until deprovisioning catches up; from then on the limit is enforced again
+			if int64(count[name]) <= lim.Value() {
+				delete(p.limitLower, name)
+			}
 			continue
 		}
 		if int64(count[name]) > lim.Value() {
